@@ -43,7 +43,7 @@ CHECKS = {
  "C16": ("4 C16", "decode/encode/decode round-trip oracle (deep value equality incl. dynamic CRS type, byte-stable second encoding, semantic equality with the original for unmodified documents), history clauses (encoding of a decoded value unchanged by decoding sibling documents; embedded sets still equal to their documents after thousands of decodes) and demanded-reject / no-panic oracle over 1-3 composed structural mutations of 15 documents",
          "accept/reject demanded only for the classes the statement names; nil and empty lists are equal",
          "runtime monitor: round-trip and rejection oracle over mutated documents"),
- "C17": ("4 C17", "bit-by-bit reference interleave vs ToZ/FromZ/MustToZ: equality, round trip, parent key, ok flag; all <=2-bit patterns and all 8-bit pairs at three shifts exhaustively, random pairs otherwise",
+ "C17": ("4 C17", "bit-by-bit reference interleave vs ToZ/FromZ/MustToZ: equality, round trip, parent key, ok flag; all <=2-bit patterns and all 8-bit pairs at three shifts exhaustively, random pairs otherwise; plus the keys as the point index uses them: pixels inserted by address on indexes of 8-36 levels, look-ups checked against the ancestors the addresses predict, addresses above 32 bits must be reported or at least not aliased",
          "2^64 pairs cannot be enumerated",
          "runtime monitor: reference-model comparison"),
  "C10": ("4 C10", "offline history checker over what fake targets received through the real processing.ProcessFeatures (unique feature ids, sequential model): exactly-once, no foreign feature, source order, geometry/attribute identity, tile matrix id; 6 speed plans x GOMAXPROCS 1/2/4/16; thorough under the race detector",
